@@ -196,7 +196,9 @@ def build_reference(configs=('main', 'bundled-hash')):
     from .program import Program
     data = {}
     for c in configs:
-        data[c] = fingerprint(Program(c, normalize=False))
+        pr = Program(c, normalize=False)
+        data[c] = fingerprint(pr)
+        data[c + ':records'] = dict((k, [[f[0], f[1]] for f in v]) for k, v in pr.records.items())
     json.dump(data, open(REF_PATH, 'w'), indent=0, sort_keys=True)
     return dict((c, len(v)) for c, v in data.items())
 
@@ -396,6 +398,14 @@ def _clone_e(e, vmap, refsub):
             b = b.a[0]
         if b is not None and b.k == 'var' and b.decl in refsub:
             return _clone_e(refsub[b.decl], {}, {})
+    if e.k == 'mem' and e.arrow and e.a:
+        b = e.a[0]
+        while b is not None and b.k == 'cast' and b.a and b.macro != 'explicit':
+            b = b.a[0]
+        if b is not None and b.k == 'var' and b.decl in refsub:
+            # p->f with p bound to &x  is  x.f
+            return E('mem', op=e.op, a=[_clone_e(refsub[b.decl], {}, {})], t=e.t, dt=e.dt, decl=e.decl, arrow=False,
+                     file=e.file, line=e.line)
     if e.k == 'var':
         if e.decl in refsub:
             x = _clone_e(refsub[e.decl], {}, {})
@@ -404,8 +414,12 @@ def _clone_e(e, vmap, refsub):
             v = vmap[e.decl]
             return E('var', op=v.op, t=v.t, dt=v.dt, decl=v.decl, dk=v.dk or 'VarDecl', file=e.file, line=e.line)
     c = E(e.k, op=e.op, a=[_clone_e(x, vmap, refsub) for x in e.a], t=e.t, dt=e.dt, val=e.val, decl=e.decl, dk=e.dk,
-          arrow=e.arrow, file=e.file, line=e.line, uid=e.uid, post=e.post, body=None, macro=e.macro)
+          arrow=e.arrow, file=e.file, line=e.line, uid=('%s@%s' % (e.uid, _CUR_TAG[0])) if e.uid is not None else None,
+          post=e.post, body=None, macro=e.macro)
     return c
+
+
+_CUR_TAG = ['']
 
 
 def _clone_s(s, vmap, refsub, ret, endlabel, newlocals, tag, tail):
@@ -438,7 +452,8 @@ def _clone_s(s, vmap, refsub, ret, endlabel, newlocals, tag, tail):
     if s.k in ('label', 'goto') and lab is not None:
         lab = '%s@%s' % (lab, tag)              # the helper's own labels are private to this expansion
     c = S(s.k, e=_clone_e(s.e, vmap, refsub) if s.e is not None else None, label=lab, file=s.file, line=s.line,
-          static=s.static, macro=s.macro, uid=s.uid, endline=s.endline, var=s.var)
+          static=s.static, macro=s.macro, uid=('%s@%s' % (s.uid, tag)) if s.uid is not None else None,
+          endline=s.endline, var=s.var)
     # a return nested in a branch is a tail return only if the branch itself is in tail position
     inner_tail = tail and s.k in ('compound', 'if', 'label')
     for attr in ('body', 'then', 'els'):
@@ -570,6 +585,7 @@ def inline_new_helpers(prog, max_rounds=3):
                         if len(args) == len(f.params):
                             _INL[0] += 1
                             tag = 'i%d' % _INL[0]
+                            _CUR_TAG[0] = tag
                             pre = []
                             vmap, refsub, newlocals = {}, {}, {}
                             for p, a in zip(f.params, args):
@@ -652,3 +668,50 @@ def inline_new_helpers(prog, max_rounds=3):
         prog._callers = None
         prog._fp_targets = None
     return done
+
+
+def resolve_field_renames(prog):
+    """Private struct fields renamed consistently (declaration and every use): a field of the current tree that the
+    reference record does not have is matched to a reference field that is missing, when it has the same type and
+    sits at the same position in the record (or is the only candidate of that type).  Member accesses are rewritten to
+    the reference name by the member's declaration id."""
+    global _REF
+    reference(prog.config)
+    recs = (_REF or {}).get(prog.config + ':records') or (_REF or {}).get('main:records') or {}
+    mapping = {}
+    byid = {}
+    for rname, cur in prog.records.items():
+        ref = recs.get(rname)
+        if not ref:
+            continue
+        refnames = [r[0] for r in ref]
+        curnames = [c[0] for c in cur]
+        missing = [(i, r) for i, r in enumerate(ref) if r[0] not in curnames]
+        new = [(i, c) for i, c in enumerate(cur) if c[0] not in refnames]
+        if not missing or not new:
+            continue
+        for i, c in new:
+            same_pos = [r for j, r in missing if j == i and r[1].replace('_Bool', 'int') == c[1].replace('_Bool', 'int')]
+            cands = same_pos or [r for j, r in missing if r[1] == c[1]]
+            if len(cands) == 1:
+                mapping['%s.%s' % (rname, c[0])] = cands[0][0]
+                byid[c[3]] = cands[0][0]
+                missing = [(j, r) for j, r in missing if r is not cands[0]]
+    if not byid:
+        return {}
+    # member ids differ between translation units: go by the new name (and the record in the base's type)
+    byname = dict((k.split('.', 1)[1], (k.split('.', 1)[0], v)) for k, v in mapping.items())
+    from .program import all_exprs
+    for g in prog.funcs.values():
+        if g.body is None:
+            continue
+        for ex in all_exprs(g):
+            for n in walk(ex):
+                if n.k == 'mem' and n.op in byname:
+                    rec, refname = byname[n.op]
+                    bt = (n.a[0].t or '') + ' ' + (n.a[0].dt or '') if n.a else ''
+                    if rec in bt or not bt.strip():
+                        n.op = refname
+    for rname, cur in list(prog.records.items()):
+        prog.records[rname] = [((byid.get(c[3]) or c[0]),) + tuple(c[1:]) for c in cur]
+    return mapping
